@@ -12,7 +12,10 @@ search     : the harness's direct oracle (sum of frame_time vs duration / order 
 import os
 import shutil
 import struct
+import sys
 import vlib
+sys.path.insert(0, os.path.join(vlib.VERIF, "tools"))
+import gen_c18_flags  # noqa: E402
 
 LEVEL = "proof"
 MANIFEST = dict(
@@ -45,6 +48,14 @@ MANIFEST = dict(
          "followed by player restarts: another sequence selected, xmp_end_player + xmp_start_player, then order 0 must play as the main sequence; "
          "xmp_restart_module in the middle of each sequence (preferably in the middle of a pattern-delay / row-delay row), then the sequence must play "
          "again from its entry point with its duration, trace and loop point. "
+         "Configurations: after the default run every module is loaded again in fresh contexts and the duration / order-time / loop-counter "
+         "oracle (incl. xmp_get_module_info and total_time) is repeated after xmp_set_player(XMP_PLAYER_CFLAGS, |VBLANK) (always; the rescan's "
+         "sequences are also compared with the model scanning with the flag set), CFLAGS VBLANK set and cleared again or XMP_PLAYER_FLAGS VBLANK "
+         "before the load, one XMP_PLAYER_MODE (1..10), and XMP_PLAYER_VOICES 1 / 2 / 4 (IT modules: notes on the events that carry the flow "
+         "effects, one voice always); failures carry the configuration in the signature (oracle:<kind>:<fmt>:<cfg>, e.g. oracle:duration:it:voices1). "
+         "Fxx (FX_SPEED) reaches the model undecoded (RawMod): C18_scan_eq_play_flags states the property for either value of the VBlank flag read "
+         "by BOTH sides, C18_flag_mismatch_breaks shows it fails otherwise, and C18_flag_word_same proves over facts regenerated from the C "
+         "(tools/gen_c18_flags.py) that scan.c and effects.c test the flag through the same word p->flags with the same disjuncts. "
          "The scan's runaway guard (row_count_total > row_limit = 512, checked at the top of every row before the scan_cnt test, reset only at the "
          "bottom of the order loop) is part of the model; ModWF bounds patterns to 256 rows and C18_row_guard_idle / C18_row_guard_idle_all prove "
          "that for such modules the guard never fires; 20% of the generated modules are long chains of orders left by position jumps "
@@ -67,6 +78,7 @@ REQUIRED = ["Xmp.LinFlow.C18_tick_exact", "Xmp.LinFlow.C18_row_accounting", "Xmp
             "Xmp.LinFlow.C18_duration_within_ms", "Xmp.LinFlow.C18_scan_eq_play_checked",
             "Xmp.LinFlow.C18_order_start_time", "Xmp.LinFlow.C18_scan_eq_play",
             "Xmp.LinFlow.C18_row_accounting_rowdelay", "Xmp.LinFlow.C18_row_guard_idle", "Xmp.LinFlow.C18_row_guard_idle_all",
+            "Xmp.LinFlow.C18_flag_word_same", "Xmp.LinFlow.C18_scan_eq_play_flags", "Xmp.LinFlow.C18_flag_mismatch_breaks",
             "Xmp.LinFlow.C18_loop_count"]
 
 FORMATS = ("mod", "xm", "s3m", "it")
@@ -398,16 +410,30 @@ IT_CMD = {"s": 1, "j": 2, "d": 19, "r": 19, "t": 20}
 
 
 def write_it(d):
+    """With d["notes"]: one looped sample, and every flow effect sits on an event that also plays a note, on a channel
+    above one that plays a note in the same row: with XMP_PLAYER_VOICES 1 that event's note finds no voice -- its
+    effects must still run (read_event_it)."""
     orders = d["orders"]
     npat = len(d["pats"])
+    notes = bool(d.get("notes"))
+    nsmp = 1 if notes else 0
     hdr = bytearray()
     hdr += b"IMPM" + b"c18 linear flow".ljust(26, b"\0") + b"\x04\x10"
-    hdr += struct.pack("<HHHH", len(orders), 0, 0, npat)
+    hdr += struct.pack("<HHHH", len(orders), 0, nsmp, npat)
     hdr += struct.pack("<HHHH", 0x0214, 0x0214, 0x0001 | 0x0008, 0)
     hdr += bytes([128, 48, d["spd"], d["bpm"], 128, 0]) + struct.pack("<HII", 0, 0, 0)
     hdr += bytes([32] * 64) + bytes([64] * 64)
     assert len(hdr) == 192
-    off = 192 + len(orders) + 4 * npat
+    off = 192 + len(orders) + 4 * nsmp + 4 * npat
+    smp_hdr_off = off
+    smp = b""
+    if notes:
+        wave = bytes((i * 8) & 0xff for i in range(32))
+        smp = (b"IMPS" + b"c18.smp".ljust(12, b"\0") + bytes([0, 64, 0x01 | 0x10, 64]) + b"c18 tone".ljust(26, b"\0") +
+               bytes([1, 0]) + struct.pack("<IIIIIII", len(wave), 0, len(wave), 8363, 0, 0, off + 80) + bytes([0, 0, 0, 0]))
+        assert len(smp) == 80
+        smp += wave
+        off += len(smp)
     blobs, ptrs = [], []
     for rows in d["pats"]:
         data = bytearray()
@@ -415,13 +441,19 @@ def write_it(d):
             if ev is not None:
                 k, v, c = ev
                 prm = (0x60 | v) if k == "d" else (0xe0 | v) if k == "r" else v
-                data += bytes([(c + 1) | 0x80, 0x08, IT_CMD[k], prm])
+                if notes:
+                    c = max(c, 1)
+                    data += bytes([1 | 0x80, 0x03, 60, 1])                         # channel 1: note C-5, sample 1
+                    data += bytes([(c + 1) | 0x80, 0x0b, 64, 1, IT_CMD[k], prm])  # higher channel: note + the flow effect
+                else:
+                    data += bytes([(c + 1) | 0x80, 0x08, IT_CMD[k], prm])
             data += b"\0"
         blob = struct.pack("<HHI", len(data), len(rows), 0) + data
         ptrs.append(off)
         blobs.append(blob)
         off += len(blob)
-    return bytes(hdr) + bytes(orders) + b"".join(struct.pack("<I", p) for p in ptrs) + b"".join(blobs)
+    return (bytes(hdr) + bytes(orders) + (struct.pack("<I", smp_hdr_off) if notes else b"") +
+            b"".join(struct.pack("<I", p) for p in ptrs) + smp + b"".join(blobs))
 
 
 def write_module(d):
@@ -452,7 +484,7 @@ def parse_cases(text):
             cur["model_in"].append(line)
         elif line.startswith("oracle_fail"):
             cur["oracle"].append(line)
-        elif line.startswith(("note ", "aux ", "cap ", "loadfail", "tour ", "restarts ")):
+        elif line.startswith(("note ", "aux ", "cap ", "loadfail", "tour ", "restarts ", "cfg ")):
             cur["notes"].append(line)
         elif line == "endcase":
             cur = None
@@ -480,7 +512,7 @@ def kv(line):
 def compare(real, model):
     """Compare canonical lines.  Returns None or a description of the first difference."""
     ri = [l for l in real]
-    mi = [l for l in model if not l.startswith(("tracesagree", "recsagree", "seqhyp", "modwf"))]
+    mi = [l for l in model if not l.startswith(("tracesagree", "recsagree", "seqhyp", "modwf", "vrecsagree", "xrecsagree"))]
     if len(ri) != len(mi):
         # find first structural difference
         for a, b in zip(ri, mi):
@@ -511,6 +543,12 @@ def compare(real, model):
                 return "duration differs: real=%r model=%r" % (a, b)
             if fb[-1] != "false":
                 return "model scan ran out of fuel: %r" % b
+        elif k == "vseq":
+            # the rescan under XMP_FLAGS_VBLANK: vseq k ep E dur D end o r n
+            if fa[1:4] != fb[1:4] or fa[6:] != fb[6:]:
+                return "sequence of the VBlank rescan differs: real=%r model=%r" % (a, b)
+            if abs(int(fa[5]) - int(fb[5])) > 1:
+                return "duration of the VBlank rescan differs: real=%r model=%r" % (a, b)
         elif k == "play":
             # play k frames n rows r total us loopinc b
             if fa[1:6] != fb[1:6] or fa[8:] != fb[8:]:
@@ -563,12 +601,12 @@ def loaded_matches_intended(d, exp_orders, model_in):
         if int(pl[2]) != len(rows):
             return "pattern %d rows: wrote %d loaded %s" % (p, len(rows), pl[2])
         exp = ["%d:%s:%d" % (r, ev[0], ev[1]) for r, ev in enumerate(rows) if ev is not None]
+        if f in ("mod", "xm"):
+            # Fxx (FX_SPEED) is dumped undecoded: speed or tempo is decided by QUIRK_NOBPM / the VBlank flag / < 0x20
+            exp = [e.replace(":t:", ":f:").replace(":s:", ":f:") for e in exp]
         got = pl[3:]
         if got != exp:
-            # MOD under QUIRK_NOBPM: tempo effects act as speed
-            exp2 = [e.replace(":t:", ":s:") for e in exp]
-            if not (f == "mod" and got == exp2):
-                return "pattern %d effects: wrote %s loaded %s" % (p, exp[:8], got[:8])
+            return "pattern %d effects: wrote %s loaded %s" % (p, exp[:8], got[:8])
     return None
 
 
@@ -617,8 +655,9 @@ def intended_model_in(d, exp_orders):
         rst = 0
     lines = ["mod %d %d %d %d 1000" % (1 if f in ("s3m", "it") else 0, rst, d["spd"], d["bpm"]),
              "xxo " + " ".join(str(o) for o in exp_orders)]
+    fk = (lambda k: "f" if (k in ("s", "t") and f in ("mod", "xm")) else k)
     for p, rows in enumerate(pats):
-        lines.append("pat %d %d %s" % (p, len(rows), " ".join("%d:%s:%d" % (r, ev[0], ev[1]) for r, ev in enumerate(rows) if ev)))
+        lines.append("pat %d %d %s" % (p, len(rows), " ".join("%d:%s:%d" % (r, fk(ev[0]), ev[1]) for r, ev in enumerate(rows) if ev)))
     lines.append("end")
     return lines
 
@@ -637,6 +676,12 @@ def work_dir(ck):
 
 
 def run(ck):
+    # translator: which flag word scan.c / effects.c read for FX_SPEED (XmpModel/Gen/C18Flags.lean; C18_flag_word_same)
+    try:
+        info, _ = gen_c18_flags.generate()
+        ck.note("flag_word_reads", ["%s:%s" % r for r in info["reads"]])
+    except Exception as e:      # the C no longer has the shape the translator reads: the model must be revisited
+        ck.unproved("translator gen_c18_flags", str(e))
     ck.proofs(["XmpProps.C18"], required=REQUIRED, drivers=["drv_c18"])
     exe = vlib.build_harness("c18_duration", ["c18_duration.c"])
     quick = ck.tier == "quick"
@@ -655,6 +700,8 @@ def run(ck):
             d = gen_chain_mod(ck.rng, fmt)  # 20%: > 512 rows in orders chained by position jumps
         else:
             d = gen_module(ck.rng, fmt, big=(ck.rng.random() < 0.05))
+        if fmt == "it" and ck.rng.random() < 0.6:
+            d["notes"] = True               # notes on the effect events: small XMP_PLAYER_VOICES must not change the timeline
         data, exp_orders = write_module(d)
         path = os.path.join(wd, "m%05d.%s" % (i, fmt))
         with open(path, "wb") as f:
@@ -677,8 +724,10 @@ def run(ck):
                  jumps_beyond_len=0, marker_orders=0, invalid_orders=0, restart_nonzero=0, one_row_patterns=0,
                  nobpm=0, long_mods=0, long_mods_vblank_reading_won=0, long_mods_cia_reading_kept=0, long_mods_below_threshold=0, rejected_both=0, corpus_cases=0, oracle_failures=0, model_traces_agree=0, foreign_end=0, model_recs_agree=0, seqhyp_holds=0, seqhyp_fails=0, modwf_holds=0, rowdelay_modules=0,
                  tour_modules=0, tour_visits=0, tour_visits_ok=0, speed_then_delay_modules=0,
-                 restart_visits=0, restart_visits_ok=0, chain_modules=0, chain_rows_max=0)
+                 restart_visits=0, restart_visits_ok=0, chain_modules=0, chain_rows_max=0,
+                 cfg_sequences=0, cfg_sequences_ok=0, vblank_recs_agree=0, vblank_flag_mixup_disagrees=0, it_note_modules=0)
     per_fmt = {f: 0 for f in FORMATS}
+    cfg_stats = {}
     for (rc, out, err), sh in zip(results, shards):
         cases = parse_cases(out)
         if rc != 0:
@@ -763,6 +812,7 @@ def run(ck):
             stats["invalid_orders"] += 1 if any(o >= len(d["pats"]) + (1 if fmt == "xm" else 0) and o < 0xfe for o in exp_orders) else 0
             stats["restart_nonzero"] += 1 if c["model_in"][0].split()[2] != "0" else 0
             stats["one_row_patterns"] += 1 if any(len(r) == 1 for r in d["pats"]) else 0
+            stats["it_note_modules"] += 1 if d.get("notes") else 0
             if d.get("style") == "chain":
                 stats["chain_modules"] += 1
                 stats["chain_rows_max"] = max(stats["chain_rows_max"], sum(len(d["pats"][o]) for o in d["orders"] if o < len(d["pats"])))
@@ -782,8 +832,18 @@ def run(ck):
             excluded = False
             if c["oracle"]:
                 stats["oracle_failures"] += 1
-                kind = c["oracle"][0].split()[1]
+                first = c["oracle"][0].split()
+                kind = first[1].rstrip(":")
                 sig = "oracle:%s:%s" % (kind, fmt)
+                if "cfg" in first[:-1] and first[-2] == "cfg":
+                    sig += ":" + first[-1]      # under a configuration (vblank_*, mode<n>, voices<n>)
+                    # finding: a player mode with QUIRK_MARKER (S3M / ST3 / ST3GUS / IT) on a module that has a restart
+                    # position and a 0xff order: the scan restarts at mod->rst, next_order() at the entry point, when the
+                    # end marker is met below the entry point (proposed_fixes/c18-scan-restart-below-entry.diff)
+                    head = c["model_in"][0].split()
+                    xxo = [int(x) for x in c["model_in"][1].split()[1:]]
+                    if first[-1] in ("mode4", "mode5", "mode6", "mode9") and head[1] == "0" and head[2] != "0" and 255 in xxo:
+                        sig = "oracle:restart-target:end-marker-below-entry:marker-mode"
                 if stale_end_point(c):
                     sig = "oracle:stale-end-point:entry-skip-marker"
                 ck.violation(sig, dict(rp, oracle=c["oracle"][:6]),
@@ -804,6 +864,12 @@ def run(ck):
                     stats["tour_visits"] += int(f[1])
                     stats["tour_visits_ok"] += int(f[3])
                     stats["tour_modules"] += 1
+                if l.startswith("cfg "):
+                    f = l.split()
+                    grp = f[1].rstrip("0123456789") if not f[1].startswith("vblank") else f[1]
+                    cfg_stats[grp] = cfg_stats.get(grp, 0) + 1
+                    stats["cfg_sequences"] += int(f[3])
+                    stats["cfg_sequences_ok"] += int(f[5])
                 if l.startswith("restarts "):
                     f = l.split()
                     stats["restart_visits"] += int(f[1])
@@ -820,6 +886,13 @@ def run(ck):
                 ck.unproved("model: Scan.run and Play.run row records (speed/tempo/delay/exact start time) differ",
                             "%s (theorem C18_scan_eq_play_seq contradicted?)" % os.path.basename(path))
             stats["model_recs_agree"] += sum(1 for l in mo_chk if l == "recsagree true")
+            # the same with the VBlank flag set on BOTH sides (C18_scan_eq_play_flags); with the flag on one side only the
+            # agreement is lost on modules where Fxx >= 0x20 is reached (counted, not required)
+            if any(l == "vrecsagree false" for l in mo_chk) and not capped:
+                ck.unproved("model: Scan and Play with the VBlank flag set on both sides differ",
+                            "%s (theorem C18_scan_eq_play_flags contradicted?)" % os.path.basename(path))
+            stats["vblank_recs_agree"] += sum(1 for l in mo_chk if l == "vrecsagree true")
+            stats["vblank_flag_mixup_disagrees"] += sum(1 for l in mo_chk if l == "xrecsagree false")
             if has_r:
                 pass
             elif "modwf true" in mo:
@@ -849,6 +922,7 @@ def run(ck):
     for k, v in stats.items():
         ck.note(k, v)
     ck.note("modules_per_format", per_fmt)
+    ck.note("configurations_run", cfg_stats)
     ck.cov["rule"] = ("cases = random linear-flow modules (format, channels, order list incl. invalid entries / S3M-IT markers, pattern "
                       "count and lengths incl. 1-row patterns, speed 1..31 / tempo 32..255 / delay 0..15 (IT: S6x and row delay SEx) / jump 0..255 "
                       "effects on random channels, speed / tempo changes followed by delays inside one pattern, restart position, initial speed "
